@@ -8,7 +8,8 @@
   makes the key set prefix-free; go-libdht panics on anything else).
 
   Still open at full strength (monitored by the correspondence + the brute-force predicates of the
-  `C18v` driver on every run, exhaustively for short keys):  coalesce_spec, the order of the gaps, covered_iff.
+  `C18v` driver on every run, exhaustively for short keys):  the order of the gaps, covered_iff, that the
+  result of coalesce has no two sibling leaves left.
 -/
 import KadDHT.Proofs.Keyspace
 import KadDHT.Proofs.Alloc
@@ -177,6 +178,14 @@ theorem nextLeaf_cyclic_successor (t : Trie α) (hwf : WF [] t) (k order : Key)
   unfold specNext
   cases (entriesAt order 0 t).find? (fun e => orderBefore order k e.1) <;> simp
 
+/-- CoalesceTrie keeps well-formedness and covers exactly the same keyspace: a (long enough) key has a stored prefix
+    before if and only if it has one afterwards. -/
+theorem coalesce_spec [Inhabited α] (t : Trie α) (hwf : WF [] t) :
+    WF [] (coalesce t) ∧ ∀ x : Key, t.height ≤ x.length →
+      ((∃ k ∈ keysL t, isPre k x = true) ↔ (∃ k ∈ keysL (coalesce t), isPre k x = true)) := by
+  obtain ⟨h1, h2⟩ := coalesce_spec_at t [] hwf
+  exact ⟨h1, fun x hx => h2 x (by simp [isPre]) (by simpa using hx)⟩
+
 /-- TrieGaps tiles the target: for every (long enough) key `x` below the target prefix exactly one element of
     "stored keys ++ gaps" is a prefix of `x`.  Existence … -/
 theorem gaps_cover_target (t : Trie α) (hwf : WF [] t) (target order x : Key) (ht : isPre target x = true)
@@ -222,6 +231,7 @@ example : (regionsAt 1 [] [] exT).map (·.1) = [[false, false], [false, true], [
 example : gaps exT [false] [] = [[false, true, false]] := by decide
 example : exT.keysIn [true, false, true] = [[true], [false, false], [false, true, true]] := by decide
 def exU : Trie Nat := node (node (leaf [false, false] 1) (leaf [false, true] 2)) (leaf [true, false] 3)
+example : (coalesce exU).keys = [[false], [true, false]] := by decide
 example : (exU.nextNonEmptyLeaf [false, true] [false, false]).map (·.1) = some [true, false] ∧
     (exU.nextNonEmptyLeaf [true, false] [false, false]).map (·.1) = some [false, false] := by decide
 
